@@ -45,7 +45,7 @@ def splitArrow (payload : String) : String × String :=
 calls of the main part (harness/engines/terminfo.go); the model threads their static variables. -/
 def splitHist (payload : String) : String × List (Bytes × List Value) :=
   match splitTrim payload ";" with
-  | m :: cs => (m, cs.map parseCall)
+  | m :: cs => (m, (cs.filter fun c => !(c.trimAscii.toString.startsWith "@")).map parseCall)   -- `@name`: a registry lookup, no argument of the evaluator
   | [] => ("", [])
 
 def histVars (cs : List (Bytes × List Value)) : Vars :=
